@@ -2,6 +2,7 @@ import Qwt.Spec.Basic
 import Qwt.Model.Codec
 import Qwt.Model.Space
 import Qwt.Model.Iter
+import Qwt.Proofs.CodecTree
 
 /-! Line-protocol driver: one request per line on stdin, one answer per line on stdout.
 For queries the answer is `<model outcome>|<spec outcome>`. -/
@@ -470,6 +471,23 @@ def slotVal (st : St) (k : Nat) : Option Codec.Val :=
   | .wt c _ t _ => some (Codec.wtVal (wbytes c) t)
   | _ => none
 
+/-- the hypotheses of the C11 round-trip theorem evaluated on the actual state (`WF` is
+    decidable), and the executable decoder run on the encoder's output -/
+def slotWF (st : St) (k : Nat) : Bool :=
+  let chk {α} [DecidableEq α] (wf : Bool) (v : Codec.Val) (t : Codec.Ty) (ofV : Codec.Val → Option α) (x : α) : Bool :=
+    wf && ((Codec.decode t (Codec.encode v)).bind (fun p => ofV p.1) == some x)
+  match getSlot st k with
+  | .qv q _ => chk (decide (Codec.qvWF q)) (Codec.qvVal q) Codec.qvTy Codec.qvOfVal q
+  | .rsq _ r _ => chk (decide (Codec.rsqWF r)) (Codec.rsqVal r) Codec.rsqTy Codec.rsqOfVal r
+  | .bv _ b _ => chk (decide (Codec.bvWF b)) (Codec.bvVal b) Codec.bvTy Codec.bvOfVal b
+  | .rsn r _ => chk (decide (Codec.rsnWF r)) (Codec.rsnVal r) Codec.rsnTy Codec.rsnOfVal r
+  | .rsw r _ => chk (decide (Codec.rswWF r)) (Codec.rswVal r) Codec.rswTy Codec.rswOfVal r
+  | .da _ d _ => chk (decide (Codec.daWF d)) (Codec.daVal d) Codec.daTy Codec.daOfVal d
+  | .qwt c t _ => chk (decide (Codec.qwtWF (wbytes c) t)) (Codec.qwtVal (wbytes c) t) (Codec.qwtTy (wbytes c)) Codec.qwtOfVal t
+  | .hqwt c t _ => chk (decide (Codec.hqwtWF (wbytes c) t)) (Codec.hqwtVal (wbytes c) t) (Codec.hqwtTy (wbytes c)) Codec.hqwtOfVal t
+  | .wt c _ t _ => chk (decide (Codec.wtWF (wbytes c) t)) (Codec.wtVal (wbytes c) t) (Codec.wtTy (wbytes c)) Codec.wtOfVal t
+  | _ => false
+
 def slotSpace (st : St) (k : Nat) : String :=
   match getSlot st k with
   | .qv q _ => Space.report (Space.qv q)
@@ -564,6 +582,7 @@ def step (st : St) (line : String) : St × String :=
     (st, match slotVal st (nat! k) with
          | some v => let bs := Codec.encode v; s!"{bs.length}:{Codec.fnv bs}" | none => "bad-slot")
   | ["space", k] => (st, slotSpace st (nat! k))
+  | ["wf", k] => (st, if slotWF st (nat! k) then "V:1" else "V:0")
   | ["free", k] => (setSlot st (nat! k) .empty, "ok")
   | _ => (st, "bad-op")
 
